@@ -20,7 +20,17 @@ HORIZON = 30
 TAUS = [1, 2, 3, 0.5, 0.25, 1.5, 0.1, 0.2, 0.3, 0.7]
 
 
+SPECIAL_ARGS = {"@dict": {"seq": 7, "size": 512}, "@set": frozenset({3}), "@range": range(2), "@bytes": b"ab", "@emptydict": {}}
+
+
+def real_args(args):
+    """bare values that are iterable without being an argument list: a list or tuple is the argument list, anything else is ONE
+    argument (JSON cases carry a token for them)"""
+    return SPECIAL_ARGS[args] if isinstance(args, str) and args in SPECIAL_ARGS else args
+
+
 def expected_args(args):
+    args = real_args(args)
     if args is None:
         return ()
     if isinstance(args, (list, tuple)):
@@ -75,7 +85,7 @@ class Scenario:
         yield self.env.timeout(c["t0"])
         kw = {}
         if c["args"] != "omit":
-            kw["args"] = c["args"]
+            kw["args"] = real_args(c["args"])
         if c["kwargs"] is not None:
             kw["kwargs"] = c["kwargs"]
         self.log.append(("create", self.env.now))
@@ -222,6 +232,8 @@ def run_case(case):
         classes.add("scalar args")
         if not case["args"]:
             classes.add("falsy scalar argument (0, '', False)")
+        if isinstance(case["args"], str) and case["args"] in SPECIAL_ARGS:
+            classes.add("iterable bare argument (dict, set, range, bytes)")
     at_expiry = stats.get("op_at_expiry_before_fire", 0) + stats.get("op_at_expiry_after_fire", 0)
     nt = at_expiry > 0 and (stats.get("op_from_callback_restart", 0) > 0 or stats.get("two_ops_one_instant", 0) > 0)
     return {"nontrivial": bool(nt), "classes": sorted(classes)}
@@ -250,7 +262,8 @@ def _strategy(tier, taus, delays):
         return st.fixed_dictionaries({
             "timeout": st.just(timeout),
             "auto": st.booleans(),
-            "args": st.sampled_from(["omit", None, 7, "x", [1], [1, "b"], [], [[2]], 0, "", 0.0, False, [0], [None]]),
+            "args": st.sampled_from(["omit", None, 7, "x", [1], [1, "b"], [], [[2]], 0, "", 0.0, False, [0], [None], "@dict", "@set", "@range", "@bytes",
+                                     "@emptydict"]),
             "kwargs": st.sampled_from([None, None, {"k": 1}]),
             "t0": delay,
             "order": st.integers(0, 1),
@@ -275,7 +288,7 @@ PROP = Property(
           "next firing. Non-trivial = a call at an expiry instant AND (a restart from the callback OR two calls at one instant)."),
     facets=[Facet("scenarios", strategy, run_case, quick=3000, thorough=20000,
                   essential=["op_at_expiry_before_fire", "op_at_expiry_after_fire", "op_from_callback_restart",
-                             "op_from_callback_stop", "two_ops_one_instant", "second timer in the same environment", "clock far from zero", "scalar args", "falsy scalar argument (0, '', False)", "restart_pending",
+                             "op_from_callback_stop", "two_ops_one_instant", "second timer in the same environment", "clock far from zero", "scalar args", "falsy scalar argument (0, '', False)", "iterable bare argument (dict, set, range, bytes)", "restart_pending",
                              "restart_after_stop"])],
     assumptions=["same-instant order of a call and an expiry is taken from the harness log (DESIGN 3.5 rule 1)"],
 )
